@@ -10,6 +10,11 @@ def distance_to_next_multiply(number, alignment):
     return (alignment - remainer) % alignment
 
 
+def field_alignment(type_):
+    """Alignment of a struct field; an optional field is aligned as its 32-bit flag requires."""
+    return type_._OPTIONAL_ALIGNMENT if type_._OPTIONAL else type_._ALIGNMENT
+
+
 def field_to_string(name, type_, value):
     single_indent_level = " " * 2
 
@@ -60,7 +65,7 @@ class struct(_composite_base):
         data = b""
 
         for field in self._descriptor:
-            data += (self._get_padding(len(data), field.type._ALIGNMENT))
+            data += (self._get_padding(len(data), field_alignment(field.type)))
             data += field.encode_fcn(self, field.type, getattr(self, field.name, None), endianness)
 
             if field.type._PARTIAL_ALIGNMENT:
@@ -78,7 +83,7 @@ class struct(_composite_base):
         start_pos = pos
 
         for field in self._descriptor:
-            pos += self._get_padding_size(pos, field.type._ALIGNMENT)
+            pos += self._get_padding_size(pos, field_alignment(field.type))
             try:
                 pos += field.decode_fcn(self, field.name, field.type, data, pos, endianness, len_hints)
             except ProphyError as e:
